@@ -52,7 +52,7 @@ func corpusCases() []*JCase {
 		{T: "write", Res: mkRes("b", "u2", "", 2)}, pub, nx(1), nx(1), nx(0),
 		{T: "snapshot"},
 	}))
-	// 4. restore while a committed batch is still queued
+	// 4. restore while a committed batch is still queued (stale upsert delivered before d82b299)
 	out = append(out, runOps("sched", []JOp{
 		{T: "write", Res: mkRes("a", "u1", "", 1)},
 		{T: "restore", List: []JRes{}},
